@@ -1339,6 +1339,37 @@ theorem marshalDeep_noRef {f : Shape → JV → Res JV} (d : Desc) (w : WF compa
     · exact hr t ht
     · cases ht
 
+/-- at a struct object of the deep model, a key that is not a tag of the kind (an extension, an unknown
+    field) is written back with its value, whatever the children do -/
+theorem marshalDeep_keeps_unknown {f : Shape → JV → Res JV} (d : Desc) (w : WF compat d) (kvs o1 : Obj)
+    (h : marshalDeep f d (unmarshal d (applyPost d kvs)) = .ok o1)
+    (hr : refTaken d (applyPost d kvs) = false) (k : String) (hk : k ∉ tagKeys d) (hke : k ≠ "example") :
+    lookup k o1 = lookup k kvs := by
+  unfold marshalDeep at h
+  simp only [unmarshal_fld d _ _ w.asg, unmarshal_ext d _ w.asg w.unm, w.ext, if_true] at h
+  have hr' : (d.refEarly && !(fldVal d (applyPost d kvs) "Ref").isEmptyStr) = false := hr
+  simp only [hr', Bool.false_eq_true, if_false] at h
+  obtain ⟨fs, hm, rfl⟩ := wrap_ok _ _ _ h
+  have hkeys := mapR_keys (·.key) _ _ fs hm (by
+    intro x _ y hy
+    obtain ⟨c, _, rfl⟩ := wrap_ok _ _ _ hy
+    rfl)
+  have hnm : k ∉ marshKeys d := by
+    rw [w.keysEq]; unfold expectedMarshKeys; split
+    · intro hc; exact hk (List.mem_filter.mp hc).1
+    · exact hk
+  have h1 : lookup k fs = none := by
+    rw [lookup_none_iff, hkeys]
+    intro hc
+    obtain ⟨m', hm', e⟩ := List.mem_map.mp hc
+    exact hnm (List.mem_map.mpr ⟨m', (List.mem_filter.mp hm').1, e⟩)
+  have hd : k ∉ d.dels := by rw [w.dels]; exact hk
+  rw [lookup_append, h1]
+  have := lookup_filter k (fun k => !(d.dels.contains k)) (applyPost d kvs)
+  simp only [Option.orElse]
+  rw [this, applyPost_lookup_ne d kvs k hke]
+  simp [hd]
+
 theorem deepOK_struct (d : Desc) (h : d.deepOK = true) (ht : d.template = .struct) :
     WF compat d ∧ (∀ fl ∈ d.fields, tcShapeOK fl.tc fl.shape = true) ∧
     (d.post.contains "dateExampleTrim" = true →
